@@ -63,74 +63,8 @@ fn check_queries(ticks: &ServerMutateTicks, confirmed: &[(RepliconTick, usize, u
     }
 }
 
-// HARNESS: c12_mutate_ticks_two_confirms
-// PROPS: C12
-// TIER: thorough
-// TIMEOUT: 1800
-// DRIVES: ServerMutateTicks::confirm, ServerMutateTicks::contains, ServerMutateTicks::contains_any, ServerMutateTicks::mask, TickMessages::confirm
-// BOUNDS: from Default: two confirms with arbitrary ticks within 2^30 and counts 1..=2 (same count when the tick repeats), then arbitrary contains / contains_any / mask queries; unwind 66
-#[kani::proof]
-#[kani::unwind(66)]
-fn c12_mutate_ticks_two_confirms() {
-    let mut ticks = ServerMutateTicks::default();
-    let base = ticks.last_tick();
-    let t1 = near(base);
-    let t2 = near(base);
-    let n1: usize = kani::any();
-    let n2: usize = kani::any();
-    kani::assume(n1 >= 1 && n1 <= 2 && n2 >= 1 && n2 <= 2);
-    // ASSUME: documented precondition: the message count of one tick does not change, and no more messages than announced arrive
-    kani::assume(t1 != t2 || (n1 == n2 && n1 == 2));
-    let c1 = ticks.confirm(t1, n1);
-    let last1 = ticks.last_tick();
-    let t1_tracked = matches!(model_ago(last1, t1), Some(ago) if ago < 64);
-    assert!(c1 == (t1_tracked && n1 == 1));
-    let c2 = ticks.confirm(t2, n2);
-    let last2 = ticks.last_tick();
-    assert!(last2 >= last1);
-    let t2_tracked = matches!(model_ago(last2, t2), Some(ago) if ago < 64);
-    let t1_still = t1_tracked && matches!(model_ago(last2, t1), Some(ago) if ago < 64);
-    // The notification fires exactly on the confirmation that completes a tick.
-    if t1 == t2 {
-        assert!(c2 == (t1_tracked && t2_tracked));
-    } else {
-        assert!(c2 == (t2_tracked && n2 == 1));
-    }
-    // Queries agree with the counter model.
-    let r1 = if t1 == t2 { 2 } else { 1 };
-    let mut model = [(t1, 0usize, 0usize), (t2, 0usize, 0usize)];
-    if t1_still {
-        model[0] = (t1, n1, if t1 == t2 && t2_tracked { r1 } else { 1 });
-    }
-    if t2_tracked && t1 != t2 {
-        model[1] = (t2, n2, 1);
-    }
-    check_queries(&ticks, &model);
-    // Range query: any tick in [s, e] complete?
-    let s = near(last2);
-    let e = near(last2);
-    // ASSUME: documented precondition start_tick <= end_tick
-    kani::assume(s <= e);
-    let complete = |t: RepliconTick| -> bool {
-        match model_ago(last2, t) {
-            None => false,
-            Some(ago) if ago >= 64 => true,
-            Some(_) => model.iter().any(|&(mt, e, r)| mt == t && e != 0 && e == r),
-        }
-    };
-    let expected_any = if s > last2 {
-        false
-    } else if (last2 - s) >= 64 {
-        true
-    } else {
-        // only t1/t2 can be complete inside the window
-        (t1 >= s && t1 <= e && complete(t1)) || (t2 >= s && t2 <= e && complete(t2))
-    };
-    assert!(ticks.contains_any(s, e) == expected_any);
-    kani::cover!(t1 == t2 && c2, "tick completed by its second message");
-    kani::cover!(t1_tracked && !t1_still, "first tick pushed out of the window by the second");
-    core::mem::forget(ticks);
-}
+// (A two-confirm harness from the default state was dropped: it needs more than 52 GB / 1 h, and the
+// one-step harnesses below from an arbitrary state subsume it inductively.)
 
 fn confirm_from_any_state(jump: Option<i32>) {
     confirm_from_state(jump, None)
